@@ -291,6 +291,161 @@ def pspace_configs(ctx, rng):
         yield 'pspace;%s;custom-inner' % dt, spc, PIn([Model(da), Model(db)])
 
 
+# ---------------------------------------------------------------------------------------------
+# W-ambient: the same model derived from an arbitrary library space, for every inner / norm / dist call the repository's
+# own test-suite makes (thorough tier)
+
+
+def describe(sp):
+    """Model description of a space the library built, or None where the documentation gives no closed form (custom
+    callables, non-uniform partitions)."""
+    try:
+        p = float(sp.exponent)
+        if util.is_pspace(sp):
+            w = sp.weighting
+            name = type(w).__name__
+            if name == 'ProductSpaceConstWeighting':
+                base = float(w.const)
+            elif name == 'ProductSpaceArrayWeighting':
+                base = np.asarray(w.array, dtype=float)
+            else:
+                return None
+            parts = [describe(s) for s in sp]
+            if any(q is None for q in parts):
+                return None
+            return {'kind': 'pspace', 'parts': [Model(q) for q in parts], 'base': base, 'p': p}
+        ts = sp.tspace if isinstance(sp, odl.DiscretizedSpace) else sp
+        if type(ts).__name__ != 'NumpyTensorSpace':
+            return None
+        w = ts.weighting
+        name = type(w).__name__
+        if name == 'NumpyTensorSpaceConstWeighting':
+            base = float(w.const)
+        elif name == 'NumpyTensorSpaceArrayWeighting':
+            base = np.asarray(w.array)
+        else:
+            return None
+        if float(w.exponent) != p:
+            return None
+        d = {'kind': 'tensor', 'shape': sp.shape, 'base': base, 'p': p, 'dtype': str(np.dtype(sp.dtype))}
+        if isinstance(sp, odl.DiscretizedSpace):
+            if not sp.partition.is_uniform:
+                return None
+            d['kind'] = 'discr'
+            d['fractions'] = discr_fractions(sp)
+        return d
+    except Exception:
+        return None
+
+
+class AmbientContract(object):
+    """Record-only contract on LinearSpace.inner / norm / dist (public entry points): result against the documented
+    weighted sums, conjugate symmetry, Cauchy-Schwarz, norm = sqrt(inner), dist = norm(x - y) and its symmetry."""
+
+    def __init__(self, rec):
+        self.rec = rec
+        self.busy = False
+        self.models = {}
+
+    def model(self, sp):
+        key = id(sp)
+        if key not in self.models:
+            d = describe(sp) if type(sp).__module__.startswith('odl.') else None
+            self.models[key] = (sp, Model(d) if d is not None else None)     # keeps sp alive: ids are not reused
+        return self.models[key][1]
+
+    def install(self):
+        from odl.set.space import LinearSpace
+        me = self
+        orig = {n: getattr(LinearSpace, n) for n in ('inner', 'norm', 'dist')}
+
+        def wrap(name):
+            fn = orig[name]
+
+            def method(self, *args):
+                r = fn(self, *args)
+                if me.busy:
+                    return r
+                me.busy = True
+                try:
+                    me.check(name, self, args, r, orig)
+                except Exception as e:       # the contract must never change what the suite sees
+                    me.rec.note_add('ambient_contract_errors:' + type(e).__name__)
+                finally:
+                    me.busy = False
+                return r
+            method.__name__ = name
+            method.__doc__ = fn.__doc__
+            return method
+        for n in orig:
+            setattr(LinearSpace, n, wrap(n))
+
+    def check(self, name, sp, args, r, orig):
+        model = self.model(sp)
+        if model is None:
+            self.rec.note_add('ambient_no_model')
+            return
+        els = [a if getattr(a, 'space', None) is not None else None for a in args]
+        if any(e is None or e not in sp for e in els):
+            return
+        A = [arrs(sp, e) for e in els]
+        flat = np.concatenate([np.ravel(np.asarray(v, dtype=complex)) for e in els for v in ([util.to_cvec(sp, e)])]) if els else np.zeros(0)
+        if flat.size == 0 or not np.all(np.isfinite(flat)) or not np.isfinite(complex(r)):
+            self.rec.note_add('ambient_nonfinite_or_empty')
+            return
+        mx = float(np.abs(flat).max())
+        if mx > 1e100 or (mx < 1e-100 and mx != 0):
+            return
+        single = any(np.dtype(l.dtype).itemsize // (2 if np.dtype(l.dtype).kind == 'c' else 1) <= 4 for _p, l in util.leaves(sp))
+        tol = 5e-4 if single else 1e-9
+        cfg = 'ambient:' + util.space_tag(sp) + ';p=' + pclass(model.d.get('p', 2.0))
+        self.rec.ev('ambient-' + name)
+        if name == 'inner':
+            x, y = els
+            ref = complex(model.inner(A[0], A[1]))
+            nx, ny = float(model.norm(A[0])), float(model.norm(A[1]))
+            sc = max(abs(ref), nx * ny * 1e-2, 1e-300)
+            if abs(complex(r) - ref) > tol * sc:
+                self.rec.violation('inner', cfg, '!=documented', got=complex(r), ref=ref)
+            back = orig['inner'](sp, y, x)
+            if abs(complex(r) - np.conj(complex(back))) > tol * sc:
+                self.rec.violation('inner', cfg, 'conjugate-symmetry')
+            if abs(complex(r)) > nx * ny * (1 + 10 * tol) + 1e-300:
+                self.rec.violation('inner', cfg, 'cauchy-schwarz')
+        elif name == 'norm':
+            ref = float(model.norm(A[0]))
+            if not isclose(r, ref, tol) or r < 0:
+                self.rec.violation('norm', cfg, '!=documented', got=float(r), ref=ref)
+            if model.d.get('p', 2.0) == 2.0:
+                ixx = orig['inner'](sp, els[0], els[0])
+                if not isclose(r, np.sqrt(np.real(ixx)), tol):
+                    self.rec.violation('norm', cfg, '!=sqrt(inner)', got=float(r), ref=float(np.sqrt(np.real(ixx))))
+        else:
+            x, y = els
+            ref = float(model.dist(A[0], A[1]))
+            nx, ny = float(model.norm(A[0])), float(model.norm(A[1]))
+            # cancellation: the difference of two close elements carries the rounding error of the operands
+            if abs(float(r) - ref) > 10 * tol * max(ref, 1e-3 * (nx + ny), 1e-300):
+                self.rec.violation('dist', cfg, '!=documented', got=float(r), ref=ref)
+            back = orig['dist'](sp, y, x)
+            if abs(float(r) - float(back)) > tol * max(ref, 1e-3 * (nx + ny), 1e-300):
+                self.rec.violation('dist', cfg, 'asymmetric')
+
+
+def run_ambient(ctx):
+    """W-ambient (thorough, shard 0): the repository's own suite under the inner / norm / dist contract."""
+    from .c03 import ambient_suite
+    data = ambient_suite(ctx, {'VF_AMBIENT_INNER': '1', 'VF_AMBIENT_NO_CALLMON': '1'}, 'c02')
+    if not data:
+        return
+    st = data['stats']
+    ctx.note('ambient', {k: v for k, v in st.items() if k.startswith('ambient')})
+    n = sum(v for k, v in st.items() if k in ('ambient-inner', 'ambient-norm', 'ambient-dist'))
+    ctx.ev('ambient-contract', n)
+    for v in data['violations']:
+        ctx.violation(v['component'], v['config'], v['kind'], where='repository test-suite (W-ambient)', count=v['count'])
+
+
 def rnd(sp, rng, order_flip=False):
     if util.is_pspace(sp):
         return sp.element([rnd(s, rng, order_flip) for s in sp])
@@ -420,6 +575,8 @@ def run(ctx):
             model = desc if isinstance(desc, Model) else Model(desc)
             check_space(ctx, cls, sp, model, ctx.rng('vals', i))
     cov.disarm()
+    if ctx.thorough and ctx.shard == 0 and ctx.round == 0:
+        run_ambient(ctx)
     n_exec, n_hit, unreached = cov.report()
     ctx.note('line_coverage', {'executable': n_exec, 'hit': n_hit})
     for u in unreached:
